@@ -419,6 +419,62 @@ func main() {
 	}
 	fact("AccountDB.Commit skeleton %v leaf refs %v empty inits %v", sk, lr, emptyInit)
 
+	// ---- dirty flags of the account package: where they are cleared, what gates InsertBlob
+	var dirtyClears, dirtyDeletes, undoDirty []string
+	insertGate := "not-found"
+	adir := filepath.Join(repo, "src/storage/account")
+	ents, _ := os.ReadDir(adir)
+	for _, e := range ents {
+		if e.IsDir() || !strings.HasSuffix(e.Name(), ".go") || strings.HasSuffix(e.Name(), "_test.go") {
+			continue
+		}
+		f, err := parser.ParseFile(fset, filepath.Join(adir, e.Name()), nil, 0)
+		if err != nil {
+			continue
+		}
+		for _, d := range f.Decls {
+			fd, ok := d.(*ast.FuncDecl)
+			if !ok || fd.Body == nil {
+				continue
+			}
+			fn := fd.Name.Name
+			if fd.Recv != nil && len(fd.Recv.List) == 1 {
+				fn = strings.TrimPrefix(src(fd.Recv.List[0].Type), "*") + "." + fn
+			}
+			where := "src/storage/account/" + e.Name() + ":" + fn
+			ast.Inspect(fd.Body, func(n ast.Node) bool {
+				switch x := n.(type) {
+				case *ast.AssignStmt:
+					for i, l := range x.Lhs {
+						if sel, ok := l.(*ast.SelectorExpr); ok && strings.Contains(strings.ToLower(sel.Sel.Name), "dirty") && i < len(x.Rhs) {
+							if e.Name() == "transition.go" {
+								undoDirty = append(undoDirty, where+":"+sel.Sel.Name+"="+src(x.Rhs[i]))
+							}
+							if src(x.Rhs[i]) != "true" {
+								dirtyClears = append(dirtyClears, where+":"+sel.Sel.Name+"="+src(x.Rhs[i]))
+							}
+						}
+					}
+				case *ast.CallExpr:
+					if id, ok := x.Fun.(*ast.Ident); ok && id.Name == "delete" && len(x.Args) == 2 {
+						if strings.Contains(strings.ToLower(src(x.Args[0])), "dirty") {
+							dirtyDeletes = append(dirtyDeletes, where+":"+src(x.Args[0]))
+						}
+					}
+				case *ast.IfStmt:
+					if fn == "AccountDB.Commit" && hasCall(x.Body, "adb.db.TrieDB().InsertBlob") && !hasCall(x.Body, "accountObject.CommitTrie") {
+						insertGate = src(x.Cond)
+					}
+				}
+				return true
+			})
+		}
+	}
+	sort.Strings(dirtyClears)
+	sort.Strings(dirtyDeletes)
+	sort.Strings(undoDirty)
+	fact("dirty flag clears %v; dirty set deletes %v; InsertBlob gate %q", dirtyClears, dirtyDeletes, insertGate)
+
 	// ---- hasher.store: insert before onleaf
 	hf := parse(filepath.Join(repo, "src/storage/trie/hasher.go"))
 	store := findMethod(hf, "hasher", "store")
@@ -476,6 +532,10 @@ namespace Rangers.Generated.TrieDbFacts
 	fmt.Fprintf(&o, "/-- SHA3-256 of the empty string, big-endian, as the harness shows it (first 7 bytes). -/\ndef emptyDataPrefix7 : Nat := 0x%x\n\n", prefix7)
 	fmt.Fprintf(&o, "/-- order of the three commit steps in `AccountDB.Commit`'s per-object branch and after it. -/\ndef stateCommitSkeleton : List String :=\n  %s\n\n", leanStrList(sk))
 	fmt.Fprintf(&o, "/-- in `hasher.store`: `db.insert` precedes the `onleaf` callback. -/\ndef storeInsertBeforeOnleaf : Bool := %s\n\n", insertBefore)
+	fmt.Fprintf(&o, "/-- every assignment of something other than `true` to a `dirty*` field in src/storage/account (non-test). -/\ndef dirtyFlagClearSites : List String :=\n  %s\n\n", leanStrList(dirtyClears))
+	fmt.Fprintf(&o, "/-- every `delete(<dirty set>, …)` in src/storage/account (non-test). -/\ndef dirtySetDeleteSites : List String :=\n  %s\n\n", leanStrList(dirtyDeletes))
+	fmt.Fprintf(&o, "/-- every direct assignment to a `dirty*` field inside a journal undo (transition.go); undos go through the setters. -/\ndef undoDirtyFieldAssignments : List String := %s\n\n", leanStrList(undoDirty))
+	fmt.Fprintf(&o, "/-- the condition guarding `InsertBlob` in `AccountDB.Commit`. -/\ndef insertBlobGate : String := %q\n\n", insertGate)
 	o.WriteString("end Rangers.Generated.TrieDbFacts\n")
 	os.Stdout.Write(o.Bytes())
 }
